@@ -53,6 +53,7 @@ const (
 	ErrFuncSecondArgInt   = "second argument for function '%s' on type '%s' must be an INTEGER"
 	ErrFuncSecondArgStr   = "second argument for function '%s' on type '%s' must be a STRING"
 	ErrFuncMaxArgs        = "function '%s' on type '%s' accepts a maximum of '%d' arguments"
+	ErrFuncResultTooLong  = "the result of function '%s' on type '%s' would be longer than %d bytes"
 
 	// Template errors
 	ErrUnsupportedType   = "unsupported type '%T'"
